@@ -542,7 +542,7 @@ func main() {
 		maxRunes, maxBytes = 7, 7
 	}
 	// one rune per UTF-8 lead-byte class: ASCII (incl. its last value 0x7F), C2..CF (é), D0..DF (я), E0..EF (世), F0..F4 (😀)
-	runeAlpha := []string{"a", "B", "\x7f", "é", "я", "世", "😀", "_"}
+	runeAlpha := []string{"a", "B", "\x7f", "é", "я", "世", "😀", "_", "\uFFFD"} // U+FFFD: a well-formed rune that decoders also use as their error value
 	byteAlpha := []string{"a", "\x7f", "\xff", "\xc3", "\xa9", "\xd1", "\xe4", "\xb8", "\xf0", "\x9f"}
 
 	// family A
